@@ -406,7 +406,7 @@ class DropRows(Filter[Iterable[Union[Dense,Sparse]], Iterable[Union[Dense,Sparse
                 headers = []
                 indexes = list(compress(range(len(first)), selects))
 
-            mapping = {k:v for k,v in chain(enumerate(indexes),headers)}
+            mapping = {k:v for k,v in chain(enumerate(indexes),(hi for hi in headers if selects[hi[1]]))} #dropped columns can't be read by name either
             length  = len(indexes)
 
             if headers:
